@@ -201,6 +201,8 @@ class QuantileLinearRegression(LinearRegression):
                 y, pred, self.quantile, sample_weight
             )
             if mult is not None:
-                epsilon *= mult * 2
+                epsilon *= (1 - mult) * 2
+            if sample_weight is not None:
+                return epsilon.sum() / numpy.sum(sample_weight)
             return epsilon.sum() / X.shape[0]
         return mean_absolute_error(y, pred, sample_weight=sample_weight)
